@@ -189,19 +189,28 @@ mod harnesses {
     }
 
     /// `subscribed_conn_ids`: every connection subscribed to an event or to the service, once.
-    #[cfg(not(verif_quick))]
     #[kani::proof]
     #[kani::unwind(8)]
     fn q_c04_service_subscribed_conn_ids() {
         let s = any_service(svc_cookie(1), obj_cookie(1));
         let mut count = [0u8; NCONN];
-        for c in s.subscribed_conn_ids() {
-            match c.0 {
-                0 => count[0] += 1,
-                1 => count[1] += 1,
-                _ => count[2] += 1,
+        // explicit bound instead of a `for` loop: an implementation that yields a connection more
+        // than once must fail the assertions below, not the unwinding bound of the harness
+        let mut it = s.subscribed_conn_ids();
+        let mut n = 0;
+        while n < NCONN + 1 {
+            match it.next() {
+                Some(c) => match c.0 {
+                    0 => count[0] += 1,
+                    1 => count[1] += 1,
+                    _ => count[2] += 1,
+                },
+                None => break,
             }
+            n += 1;
         }
+        assert!(n <= NCONN, "never more entries than there are connections");
+        std::mem::forget(it);
         let mut t = 0u8;
         while (t as usize) < NCONN {
             let expect = is_sub(&s, 0, t) || is_sub(&s, 1, t) || set_has(&s.subscriptions, t);
